@@ -1,0 +1,27 @@
+//go:build verif
+
+package models
+
+// Contracts for govc (see /verif/DESIGN.md §8 C11). Comment-only file: it adds no code.
+
+//@ func (*Item).GetShortID
+//@   opaque
+//@   modifies nothing
+
+//@ func (*Item).CheckConsistency
+//@   opaque
+//@   modifies nothing
+
+//@ func (*Item).GetStatus
+//@   inline
+
+//@ func (*Item).GetDepth
+//@   opaque
+//@   modifies nothing
+//@ func (*Item).GetURL
+//@   inline
+//@ func (*URL).GetHops
+//@   inline
+//@ func (ItemState).String
+//@   opaque
+//@   modifies nothing
